@@ -32,8 +32,32 @@ def firstDiffAt (a b : Bytes) : Nat :=
     initiator/target lists and matrix are C04/C12 -/
 def entryTag (k : Kind) (opts : List Opt) (off : Nat) : String :=
   if opts.isEmpty then "C04"
-  else if k = .loc then (if off < 32 then "C04,C11" else "C04,C12")
-  else "C04,C11"
+  else if k = .loc then (if off < 32 then "C04" else "C04,C12")
+  else "C04"
+
+/-- C11 on one entry built with options, given the implementation's bytes with the options
+    (`raw`) and without them (`base`), and the two reference encodings: an option's own fields
+    (where the references differ) must hold the reference value; every other byte must be what
+    the option-free build has (frame).  Only meaningful when all four have the same length. -/
+def c11Fails (k : Kind) (c : EArgs) (opts : List Opt) (raw base : Bytes) (name : String) : List Fail :=
+  match Spec.rows k c opts, Spec.rows k c [] with
+  | some (_, rs), some (_, rs0) =>
+    let ref := Spec.render rs
+    let ref0 := Spec.render rs0
+    if ref.length ≠ raw.length ∨ ref0.length ≠ raw.length ∨ base.length ≠ raw.length then
+      -- an option changed the size (pushes): fall back to "the entry is the reference encoding"
+      if ref ≠ raw then [⟨"prop", "C11", "option-encoding", s!"{name}: not the set-semantics reference encoding"⟩] else []
+    else
+      let idx := List.range raw.length
+      let own := idx.find? fun p => ref.getD p 0 ≠ ref0.getD p 0 ∧ raw.getD p 0 ≠ ref.getD p 0
+      let frame := idx.find? fun p => ref.getD p 0 = ref0.getD p 0 ∧ raw.getD p 0 ≠ base.getD p 0
+      (match own with
+       | some p => [⟨"prop", "C11", "option-own-field", s!"{name}: byte {p} governed by the options is {raw.getD p 0}, reference {ref.getD p 0}"⟩]
+       | none => []) ++
+      (match frame with
+       | some p => [⟨"prop", "C11", "option-frame", s!"{name}: byte {p} outside the options' fields changed from {base.getD p 0} to {raw.getD p 0}"⟩]
+       | none => [])
+  | _, _ => []
 
 def kindOfString (s : String) : Option Kind :=
   match s with
@@ -270,7 +294,7 @@ def checkTbl (case impl : List String) : List Fail := Id.run do
       -- full model of the entry
       let built := buildEntry op.kind op.ctor op.opts
       let dupImsic : Bool := tname = "madt" && op.kind = .imsic && hasImsic
-      let optTag := if op.opts.isEmpty then "C04" else if op.kind = .loc then "C04,C12" else "C04,C11"
+      let optTag := if op.opts.isEmpty then "C04" else if op.kind = .loc then "C04,C12" else "C04"
       match ob with
       | none =>
         ended := true
@@ -411,7 +435,7 @@ def checkEnt (case impl : List String) : List Fail :=
     | none => [⟨"corr", "C04,C11,C12,C14", "parse", "op token"⟩]
     | some op =>
       let built := buildEntry op.kind op.ctor op.opts
-      let optTag := if op.opts.isEmpty then "C04" else if op.kind = .loc then "C04,C12" else "C04,C11"
+      let optTag := if op.opts.isEmpty then "C04" else if op.kind = .loc then "C04,C12" else "C04"
       let wfNote : List Fail := if entryWf op.kind op.ctor op.opts then [] else [⟨"note", "-", "non-wf-case", op.kindName⟩]
       wfNote ++
       match impl with
@@ -419,7 +443,7 @@ def checkEnt (case impl : List String) : List Fail :=
         (match built with
          | .ok _ => [⟨"corr", optTag, "unexpected-panic", s!"{op.kindName}: impl panics, model emits"⟩]
          | .error _ => [])
-      | [hx, same, ab, us, sinks] =>
+      | [hx, same, ab, us, sinks, baseS] =>
         match hexToBytes hx with
         | none => [⟨"corr", "C04", "parse", "hex"⟩]
         | some raw =>
@@ -434,6 +458,10 @@ def checkEnt (case impl : List String) : List Fail :=
              (match Spec.layoutOracle op.kind op.ctor op.opts raw with
               | some e => [⟨"prop", dtag, "layout", s!"{op.kindName}: {e}"⟩]
               | none => [])) ++
+          (if op.opts.isEmpty ∨ baseS = "~" then [] else
+             match hexToBytes baseS with
+             | some base => c11Fails op.kind op.ctor op.opts raw base op.kindName
+             | none => []) ++
           (if same ≠ "same" then [⟨"prop", "C14", "nondeterministic", op.kindName⟩] else []) ++
           (if ab ≠ "~" ∧ ab ≠ hx then [⟨"prop", "C14", "raw-form-differs", s!"{op.kindName}: as_bytes {ab} serialised {hx}"⟩] else []) ++
           (if us ≠ "~" ∧ nat? us ≠ some (sum8 raw).toNat then [⟨"prop", "C14", "u8sum", s!"{op.kindName}: u8sum {us}, bytes sum to {(sum8 raw).toNat}"⟩] else []) ++
